@@ -31,8 +31,21 @@ def load():
             m = _re.search(r'(C\d\d) (R\d+\.\d+)', det.split('->')[-1])
             if not m:
                 continue
-            ms.append({'id': 'seeded-' + d, 'property': m.group(1), 'rule': m.group(2), 'patch': pp, 'desc': meta.get('summary', '')[:120], 'edits': []})
+            ms.append({'id': 'seeded-' + d, 'property': m.group(1), 'rule': m.group(2), 'patch': pp, 'desc': meta.get('summary', '')[:120], 'edits': [],
+                       'tier': 'thorough' if 'thorough tier' in det else 'quick'})
+    # behaviour-preserving refactorings written by independent agents (selftest/benign/*.diff): every check must stay silent
+    bd = os.path.join(VERIF, 'selftest', 'benign')
+    if os.path.isdir(bd):
+        for f in sorted(os.listdir(bd)):
+            if f.endswith('.diff'):
+                ms.append({'id': 'refactor-' + f[:-5], 'property': '*', 'rule': '-', 'patch': os.path.join(bd, f), 'benign': True, 'edits': [],
+                           'desc': 'behaviour-preserving refactoring (see selftest/benign/INDEX-*.md)'})
     return ms
+
+
+def all_properties():
+    with open(os.path.join(VERIF, 'MANIFEST.json')) as fh:
+        return [c['property_id'] for c in json.load(fh)['checks']]
 
 
 def scratch_copy():
@@ -68,7 +81,19 @@ def run_one(m, verbose=True):
         if why:
             return 'skipped', why
         env = dict(os.environ, VERIF_REPO=dst, VERIF_SELFTEST='1')
-        r = subprocess.run([os.path.join(VERIF, 'check'), m['property'], '--tier', 'quick', '--no-evidence'], env=env, capture_output=True, text=True,
+        if m['property'] == '*':
+            alarms = []
+            for prop in all_properties():
+                r = subprocess.run([os.path.join(VERIF, 'check'), prop, '--tier', 'quick', '--no-evidence'], env=env, capture_output=True, text=True, cwd=VERIF)
+                if 'cargo check failed' in r.stdout + r.stderr:
+                    return 'broken', 'patched tree does not compile'
+                alarms += [prop + ' ' + ln.strip() for ln in r.stdout.splitlines() if '[FAIL]' in ln or '[LOST]' in ln]
+                if r.returncode != 0 and not alarms:
+                    alarms.append('%s exit=%d' % (prop, r.returncode))
+            if alarms:
+                return 'false-alarm', alarms[0][:260]
+            return 'silent', 'behaviour-preserving refactoring raises no alarm in any of the %d checks' % len(all_properties())
+        r = subprocess.run([os.path.join(VERIF, 'check'), m['property'], '--tier', m.get('tier', 'quick'), '--no-evidence'], env=env, capture_output=True, text=True,
                            cwd=VERIF)
         out = r.stdout + r.stderr
         if 'cargo check failed' in out:
@@ -95,7 +120,7 @@ def controls_for(prop, maxn=3):
 def main(argv):
     ms = load()
     if argv:
-        ms = [m for m in ms if m['id'] in argv or m['property'] in argv]
+        ms = [m for m in ms if m['id'] in argv or m['property'] in argv or ('refactorings' in argv and m['property'] == '*')]
     bad = 0
     for m in ms:
         st, msg = run_one(m)
